@@ -40,6 +40,21 @@
 namespace soplex
 {
 /// Is \p c a \c space, \c tab, \c nl or \c cr ?
+/// atof() for the readers: a literal that overflows the floating-point range (e.g. 9e999) is read as +-infinity of
+/// the LP classes instead of IEEE inf, which the rest of the code does not expect (Rational(inf) raises SIGFPE)
+static inline Real LPFatof(const char* s)
+{
+   Real v = atof(s);
+
+   if(v > Real(infinity))
+      return Real(infinity);
+
+   if(v < Real(-infinity))
+      return Real(-infinity);
+
+   return v;
+}
+
 static inline bool LPFisSpace(int c)
 {
    return (c == ' ') || (c == '\t') || (c == '\n') || (c == '\r');
@@ -585,7 +600,7 @@ static R LPFreadValue(char*& pos, SPxOut* spxout)
          *t++ = *pos;
 
       *t = '\0';
-      value = atof(tmp);
+      value = LPFatof(tmp);
    }
 
    pos += s - pos;
@@ -1640,7 +1655,7 @@ static void MPSreadCols(MPSInput& mps, const LPRowSetBase<R>& rset, const NameSe
          }
       }
 
-      val = atof(mps.field3());
+      val = LPFatof(mps.field3());
 
       if(!strcmp(mps.field2(), mps.objName()))
          col.setObj(val);
@@ -1656,7 +1671,7 @@ static void MPSreadCols(MPSInput& mps, const LPRowSetBase<R>& rset, const NameSe
       {
          assert(mps.field4() != nullptr);
 
-         val = atof(mps.field5());
+         val = LPFatof(mps.field5());
 
          if(!strcmp(mps.field4(), mps.objName()))
             col.setObj(val);
@@ -1727,7 +1742,7 @@ static void MPSreadRhs(MPSInput& mps, LPRowSetBase<R>& rset, const NameSet& rnam
             mps.entryIgnored("RHS", mps.field1(), "row", mps.field2());
          else
          {
-            val = atof(mps.field3());
+            val = LPFatof(mps.field3());
 
             // LE or EQ
             if(rset.rhs(idx) < R(infinity))
@@ -1744,7 +1759,7 @@ static void MPSreadRhs(MPSInput& mps, LPRowSetBase<R>& rset, const NameSet& rnam
                mps.entryIgnored("RHS", mps.field1(), "row", mps.field4());
             else
             {
-               val = atof(mps.field5());
+               val = LPFatof(mps.field5());
 
                // LE or EQ
                if(rset.rhs(idx) < R(infinity))
@@ -1816,7 +1831,7 @@ static void MPSreadRanges(MPSInput& mps,  LPRowSetBase<R>& rset, const NameSet& 
             mps.entryIgnored("Range", mps.field1(), "row", mps.field2());
          else
          {
-            val = atof(mps.field3());
+            val = LPFatof(mps.field3());
 
             // EQ
             if((rset.lhs(idx) > R(-infinity)) && (rset.rhs_w(idx) <  R(infinity)))
@@ -1845,7 +1860,7 @@ static void MPSreadRanges(MPSInput& mps,  LPRowSetBase<R>& rset, const NameSet& 
                mps.entryIgnored("Range", mps.field1(), "row", mps.field4());
             else
             {
-               val = atof(mps.field5());
+               val = LPFatof(mps.field5());
 
                // EQ
                if((rset.lhs(idx) > R(-infinity)) && (rset.rhs(idx) <  R(infinity)))
@@ -1940,7 +1955,7 @@ static void MPSreadBounds(MPSInput& mps, LPColSetBase<R>& cset, const NameSet& c
                     || !strcmp(mps.field4(), "+Inf") || !strcmp(mps.field4(), "+inf"))
                val = R(infinity);
             else
-               val = atof(mps.field4());
+               val = LPFatof(mps.field4());
 
             // ILOG extension (Integer Bound)
             if(mps.field1()[1] == 'I' && mps.field1()[0] != 'M')
